@@ -617,6 +617,11 @@ func (res *Response) flush(conn io.Writer) error {
 		}
 		pdata = mempool.AppendString(pdata, "0\r\n")
 		for k, v := range res.trailer {
+			// a trailer is usually set after the body: send what the
+			// header holds now, not what it held when the head went out.
+			if latest := res.header.Get(k); latest != "" {
+				v = latest
+			}
 			pdata = mempool.AppendString(pdata, k)
 			pdata = mempool.AppendString(pdata, ": ")
 			pdata = mempool.AppendString(pdata, v)
